@@ -125,13 +125,17 @@ async def partial(
     if step_config.context_parameter:
         # Convert to internal face for step execution
         kwargs[step_config.context_parameter] = context
-    with workflow._resource_manager.resolution_scope():
-        for resource_def in step_config.resources:
-            descriptor = resource_def.resource
-            descriptor.set_type_annotation(resource_def.type_annotation)
-            # Unified resolution through ResourceManager
-            resource_value = await workflow._resource_manager.get(resource=descriptor)
-            kwargs[resource_def.name] = resource_value
+    if step_config.resources:
+        # Scopes are exclusive per manager; steps without resources never wait.
+        async with workflow._resource_manager.resolution_scope():
+            for resource_def in step_config.resources:
+                descriptor = resource_def.resource
+                descriptor.set_type_annotation(resource_def.type_annotation)
+                # Unified resolution through ResourceManager
+                resource_value = await workflow._resource_manager.get(
+                    resource=descriptor
+                )
+                kwargs[resource_def.name] = resource_value
     return functools.partial(func, **kwargs)
 
 
